@@ -350,3 +350,207 @@ def extra_lookup():
 def register(groups):
     groups['lookup'] = ('SrcLookup.v', spec_lookup, {'translator': Group, 'prims': PRIMS, 'extra': extra_lookup})
     groups['compiler'] = ('SrcCompiler.v', spec_compiler, {'translator': Group, 'prims': PRIMS})
+    register_select(groups)
+
+
+# ================================================================================================ bld-compiler3
+# Groups `select` (C05/C08: Compiler._select), `from` (C13: Compiler._compile_from), `targets` (C07:
+# Compiler._compile_targets, Compiler._inop): the statement-level decision logic.  SelectTranslator adds, on top of
+# CompilerTranslator's rules:
+#
+# K12 state threading.  PyMini's opaque callables are pure, but `self._compile_from(..)`, `self._compile(..)`, ... assign
+#    attributes of the compiler (self.table).  STATE = the attributes assigned by the methods reachable from
+#    Compiler._compile through calls on self (computed from the live source by `threading_info`; today: table).  A call
+#    `self.m(args)` of a method that may assign them (THREADED) is admitted only as the whole right-hand side of an
+#    assignment and becomes
+#        x = self.m(a)        ->  self.<STATE..>, x  = self.m(self.<STATE..>, a)
+#        x, y = self.m(a)     ->  self.<STATE..>, $r = self.m(self.<STATE..>, a);  x, y = $r
+#    i.e. the callable receives the state it may read and returns the state it leaves behind next to its value.  The
+#    theorems quantify over what it leaves behind.  Calls of methods that assign nothing stay plain calls.
+# K13 sets: `set(x)` is the primitive "builtins.set"; `a == b` / `a != b` with a set-typed local or a set(..) call on one
+#    side is XPrim "set_eq" [a; b] (order-insensitive equality).
+# K14 raise E('text {}'.format(x) [, node]) -> as R1 with the constant text up to the first `{` as the leading text.
+PRIMS_SELECT = PRIMS + ('builtins.set', 'builtins.hasattr', 'beanquery.query_compile.EvalQuery',
+                        'beanquery.query_compile.EvalPivot', 'beanquery.parser.ast.Target', 'beanquery.parser.ast.Column')
+
+
+def _method_functions(K):
+    """name -> function for the plain methods of the class and the handlers registered on the singledispatch method
+    `_compile`; plus the list of handler names"""
+    out = {}
+    for name, obj in K.__dict__.items():
+        if inspect.isfunction(obj):
+            out[name] = obj
+    handlers = []
+    disp = K.__dict__.get('_compile')
+    if disp is not None and hasattr(disp, 'dispatcher'):
+        for h in disp.dispatcher.registry.values():
+            if inspect.isfunction(h):
+                out.setdefault(h.__name__, h)
+                handlers.append(h.__name__)
+        out['_compile'] = None
+    return out, sorted(set(handlers))
+
+
+def threading_info(K):
+    """(STATE, THREADED): the attributes of self assigned by the methods reachable from `_compile` through calls on
+    self, and the methods that may assign one of them (directly or through such calls)"""
+    funcs, handlers = _method_functions(K)
+    assigns, calls = {}, {}
+    for name, fn in funcs.items():
+        if fn is None:
+            assigns[name], calls[name] = set(), set(handlers)
+            continue
+        try:
+            fd = ast.parse(textwrap.dedent(inspect.getsource(fn))).body[0]
+        except (OSError, TypeError) as e:
+            raise Untranslatable(f'no source for Compiler.{name}: {e}') from e
+        selfname = fd.args.args[0].arg if fd.args.args else 'self'
+        a, c = set(), set()
+        for n in ast.walk(fd):
+            tg = []
+            if isinstance(n, ast.Assign):
+                tg = n.targets
+            elif isinstance(n, (ast.AugAssign, ast.AnnAssign)):
+                tg = [n.target]
+            for t in tg:
+                for x in ast.walk(t):
+                    if isinstance(x, ast.Attribute) and isinstance(x.value, ast.Name) and x.value.id == selfname \
+                            and isinstance(x.ctx, ast.Store):
+                        a.add(x.attr)
+            if isinstance(n, ast.Call):
+                names = [n.func] + list(n.args)
+                for f in names:
+                    # a call on self, or a bound method handed over as an argument (setattr(self, ..) / getattr are
+                    # outside the fragment and rejected by the translator)
+                    if isinstance(f, ast.Attribute) and isinstance(f.value, ast.Name) and f.value.id == selfname \
+                            and f.attr in funcs:
+                        c.add(f.attr)
+        assigns[name], calls[name] = a, c
+    reach, todo = set(), ['_compile']
+    while todo:
+        m = todo.pop()
+        if m in reach:
+            continue
+        reach.add(m)
+        todo.extend(calls.get(m, ()))
+    state = sorted(set().union(*[assigns[m] for m in reach]))
+    threaded = {m for m in funcs if assigns[m] & set(state)}
+    changed = True
+    while changed:
+        changed = False
+        for m in funcs:
+            if m not in threaded and calls[m] & threaded:
+                threaded.add(m)
+                changed = True
+    return state, threaded
+
+
+class SelectTranslator(CompilerTranslator):
+    STATE, THREADED = (), frozenset()
+
+    def threaded_call(self, e):
+        return isinstance(e, ast.Call) and isinstance(e.func, ast.Attribute) and isinstance(e.func.value, ast.Name) \
+            and e.func.value.id == self.self_name and e.func.attr in self.THREADED
+
+    def is_setexpr(self, e):
+        return (isinstance(e, ast.Name) and e.id in self.settyped) or isinstance(e, ast.SetComp) or \
+            (isinstance(e, ast.Call) and isinstance(e.func, ast.Name) and e.func.id == 'set' and 'set' not in self.locals)
+
+    def expr(self, e):
+        if self.threaded_call(e) and id(e) not in getattr(self, 'admitted', ()):                           # K12
+            raise Untranslatable(f'call of the state-changing method self.{e.func.attr} outside `x = self.m(..)`')
+        if isinstance(e, ast.Compare) and len(e.ops) == 1 and isinstance(e.ops[0], (ast.Eq, ast.NotEq)) \
+                and (self.is_setexpr(e.left) or self.is_setexpr(e.comparators[0])):                        # K13
+            t = f'(XPrim "set_eq" [{self.expr(e.left)}; {self.expr(e.comparators[0])}])'
+            return t if isinstance(e.ops[0], ast.Eq) else f'(XNot {t})'
+        return super().expr(e)
+
+    def thread(self, call, target):
+        if call.keywords or any(isinstance(a, ast.Starred) for a in call.args):
+            raise Untranslatable('keyword / star arguments to a state-changing method of self')
+        self.admitted = getattr(self, 'admitted', set()) | {id(call)}
+        state_t = [f'(TSelf {gstr(a)})' for a in self.STATE]
+        state_e = [f'(XAttr (XName {gstr(self.self_name)}) {gstr(a)})' for a in self.STATE]
+        fn = f'(XAttr (XName {gstr(self.self_name)}) {gstr(call.func.attr)})'
+        args = glist(state_e + [self.expr(a) for a in call.args])
+        return f'(SUnpack {glist(state_t + [target])} (XCall {fn} {args} None))'
+
+    def stmt(self, s):
+        if isinstance(s, ast.Assign) and len(s.targets) == 1 and self.threaded_call(s.value):             # K12
+            t = s.targets[0]
+            if isinstance(t, ast.Name):
+                return self.thread(s.value, self.target(t))
+            if isinstance(t, ast.Tuple) and all(isinstance(x, ast.Name) for x in t.elts):
+                self.locals.add('$r')
+                return (self.thread(s.value, '(TName "$r")') + '; ' +
+                        f'(SUnpack {glist([self.target(x) for x in t.elts])} (XName "$r"))')
+            raise Untranslatable('state-changing method of self assigned to a non-local target')
+        if isinstance(s, ast.Raise) and isinstance(s.exc, ast.Call) and 1 <= len(s.exc.args) <= 2 \
+                and not s.exc.keywords and s.cause is None:                                                # K14
+            m = s.exc.args[0]
+            if isinstance(m, ast.Call) and isinstance(m.func, ast.Attribute) and m.func.attr == 'format' \
+                    and isinstance(m.func.value, ast.Constant) and isinstance(m.func.value.value, str):
+                if len(s.exc.args) == 2 and not isinstance(s.exc.args[1], (ast.Name, ast.Attribute)):
+                    raise Untranslatable('raise E(msg, <expression>)')
+                cls = qualname(self.static(s.exc.func))
+                lead = m.func.value.value.split('{')[0]
+                return f'(SExpr (XPrim "raise" [{self.strconst(cls)}; {self.strconst(lead)}; {self.expr(m)}]))'
+        return super().stmt(s)
+
+
+class SelectGroup:
+    """spec items: (coq_name, function object, origin)"""
+    info = {}
+
+    @staticmethod
+    def translate_all(spec, prims=()):
+        from beanquery import compiler
+        state, threaded = threading_info(compiler.Compiler)
+        SelectTranslator.STATE, SelectTranslator.THREADED = tuple(state), frozenset(threaded)
+        SelectGroup.info = {'state': list(state), 'threaded': sorted(threaded)}
+        refs = py2mini.Refs()
+        defs, info = [], {}
+        for name, fn, origin in spec:
+            try:
+                tr = SelectTranslator(fn, refs, prims=prims)
+                term, defaults = _translate(tr)
+            except Untranslatable as e:
+                raise Untranslatable(f'{origin}: {e}') from e
+            defs.append((name, origin + '; parameters: ' + ', '.join(tr.params), term, defaults))
+            info[name] = {'origin': origin, 'lines': tr.nlines}
+        text = py2mini.render(defs, refs)
+        text += ('\n(* K12: attributes of the compiler threaded through the calls on self, and the methods that may assign '
+                 'them (src_compiler.threading_info on the live class) *)\n'
+                 'Definition threaded_state : list string := ' + glist([gstr(a) for a in state]) + '.\n'
+                 'Definition threaded_methods : list string := ' + glist([gstr(m) for m in sorted(threaded)]) + '.\n')
+        return text, info
+
+
+def spec_select():
+    from beanquery import compiler
+    K = compiler.Compiler
+    return [('compile_select', _handler(K, compiler.ast.Select, '_select'), 'beanquery.compiler.Compiler._select')]
+
+
+def spec_from():
+    from beanquery import compiler
+    return [('compile_from', compiler.Compiler._compile_from, 'beanquery.compiler.Compiler._compile_from')]
+
+
+def spec_targets():
+    from beanquery import compiler
+    K = compiler.Compiler
+    a = compiler.ast
+    h_in, h_notin = _handler(K, a.In, '_inop'), _handler(K, a.NotIn, '_inop')
+    if h_in is not h_notin:
+        raise Untranslatable('ast.In and ast.NotIn are not compiled by the same handler')
+    return [('compile_targets', K._compile_targets, 'beanquery.compiler.Compiler._compile_targets'),
+            ('compile_inop', h_in, 'beanquery.compiler.Compiler._inop (the handler of ast.In and ast.NotIn)')]
+
+
+def register_select(groups):
+    opts = {'translator': SelectGroup, 'prims': PRIMS_SELECT}
+    groups['select'] = ('SrcSelect.v', spec_select, opts)
+    groups['from'] = ('SrcFrom.v', spec_from, opts)
+    groups['targets'] = ('SrcTargets.v', spec_targets, opts)
